@@ -40,6 +40,10 @@ pub struct SimNode {
     pub private_room: Uid,
     pub services: Option<DiscretServices>,
     pub events: Option<broadcast::Receiver<Event>>,
+    /// events taken from the 16-slot broadcast while the node runs (the subscriber never lags behind the service)
+    pub event_buf: Vec<Event>,
+    /// events the broadcast dropped before the harness could read them (should stay 0)
+    pub events_lagged: u64,
     pub starts: u32,
     pub settle_turns: u64,
     /// helper threads alive right after start (reader(s) + writer + verifier)
@@ -96,6 +100,8 @@ impl SimNode {
             private_room: [0; 16],
             services: None,
             events: None,
+            event_buf: vec![],
+            events_lagged: 0,
             starts: 0,
             settle_turns: 0,
             expected_threads: 0,
@@ -227,6 +233,9 @@ impl SimNode {
         self.activate();
         let idx = self.idx;
         let expected = self.expected_threads;
+        let mut rx = self.events.take();
+        let mut got: Vec<Event> = vec![];
+        let mut lagged = 0u64;
         let rt = self.rt.as_ref().expect("node is down");
         let r = rt.block_on(async {
             let m = tokio::runtime::Handle::current().metrics();
@@ -236,6 +245,15 @@ impl SimNode {
             let t0 = Instant::now();
             loop {
                 tokio::task::yield_now().await;
+                if let Some(rx) = rx.as_mut() {
+                    loop {
+                        match rx.try_recv() {
+                            Ok(e) => got.push(e),
+                            Err(broadcast::error::TryRecvError::Lagged(n)) => lagged += n,
+                            Err(_) => break,
+                        }
+                    }
+                }
                 turns += 1;
                 let now = m.worker_poll_count(0);
                 if dv::inflight_now(idx) == dv::held_now(idx) as isize
@@ -263,6 +281,9 @@ impl SimNode {
                 }
             }
         });
+        self.events = rx;
+        self.event_buf.append(&mut got);
+        self.events_lagged += lagged;
         if let Ok(t) = r {
             self.settle_turns += t;
         }
@@ -277,13 +298,36 @@ impl SimNode {
         self.activate();
         let idx = self.idx;
         let expected = self.expected_threads;
+        let mut rx = self.events.take();
+        let got: std::sync::Arc<std::sync::Mutex<(Vec<Event>, u64)>> = Default::default();
+        let got2 = got.clone();
+        let rx_back: std::sync::Arc<std::sync::Mutex<Option<broadcast::Receiver<Event>>>> = Default::default();
+        let rx_back2 = rx_back.clone();
         let rt = self.rt.as_ref().expect("node is down");
         let r = rt.block_on(async move {
+            // whatever the way out, the subscriber goes back to the node
+            struct GiveBack(Option<broadcast::Receiver<Event>>, std::sync::Arc<std::sync::Mutex<Option<broadcast::Receiver<Event>>>>);
+            impl Drop for GiveBack {
+                fn drop(&mut self) {
+                    *self.1.lock().unwrap() = self.0.take();
+                }
+            }
+            let mut keep = GiveBack(rx.take(), rx_back2);
             let h = tokio::spawn(fut);
             let t0 = Instant::now();
             let mut turns = 0u64;
             while !h.is_finished() {
                 tokio::task::yield_now().await;
+                if let Some(rx) = keep.0.as_mut() {
+                    let mut g = got2.lock().unwrap();
+                    loop {
+                        match rx.try_recv() {
+                            Ok(e) => g.0.push(e),
+                            Err(broadcast::error::TryRecvError::Lagged(n)) => g.1 += n,
+                            Err(_) => break,
+                        }
+                    }
+                }
                 std::thread::yield_now();
                 turns += 1;
                 if expected > 0 && dv::live_threads(idx) < expected {
@@ -309,6 +353,12 @@ impl SimNode {
                 Err(_) => Err(Hung::Run),
             }
         });
+        self.events = rx_back.lock().unwrap().take();
+        {
+            let mut g = got.lock().unwrap();
+            self.event_buf.append(&mut g.0);
+            self.events_lagged += g.1;
+        }
         match r {
             Ok(v) => {
                 self.settle()?;
@@ -388,14 +438,12 @@ impl SimNode {
     }
 
     pub fn drain_events(&mut self) -> Vec<Event> {
-        let mut v = vec![];
+        let mut v = std::mem::take(&mut self.event_buf);
         if let Some(rx) = self.events.as_mut() {
             loop {
                 match rx.try_recv() {
                     Ok(e) => v.push(e),
-                    Err(broadcast::error::TryRecvError::Lagged(n)) => {
-                        panic!("harness bug: event subscriber lagged by {n}")
-                    }
+                    Err(broadcast::error::TryRecvError::Lagged(n)) => self.events_lagged += n,
                     Err(_) => break,
                 }
             }
